@@ -68,7 +68,11 @@ class C12(Prop):
     LEVEL_TEXT = ("PARTIAL (node level). Coq theorems about requests on the interpreter model: a request the run log does not "
                   "offer is refused; a refused request changes nothing; a request that is carried out was offered and allowed "
                   "by the node and sets exactly its flag; in EVERY tick a cancelled instruction outside Alarms stays cancelled "
-                  "and, if not yet activated, is not activated (a cancelled Watch never runs its body); a forced Wait "
+                  "and, if not yet activated, is not activated; over WHOLE RUNS with any cancel / force requests at any ticks: a line "
+                  "cancelled before its activation is never activated (no later request is carried out on it, no tick activates "
+                  "it), a started line of a Watch body has an activated Watch (stack invariant carried through the requests), "
+                  "hence from the state in which a Watch is cancelled and not activated on no line of its body ever starts; "
+                  "the states of the run function are the node tables the correspondence observes; a forced Wait "
                   "completes, a forced instruction passes its threshold and a forced Watch / Alarm is activated at the next "
                   "transition of its generator. Not covered: the run-log items (what is offered is an observed oracle), timed "
                   "Pause / Hold, the command manager's side of UOD commands (C11).")
